@@ -18,8 +18,24 @@ def scan(rd: cst.Reading) -> list[dict]:
     if not leaves:
         return hits
 
+    def lca_type(a, b) -> str:
+        if a is None or b is None:
+            return "source_code"
+        anc = set()
+        n = a.node
+        while n is not None:
+            anc.add(n.id)
+            n = n.parent
+        n = b.node
+        while n is not None:
+            if n.id in anc:
+                return n.type
+            n = n.parent
+        return "source_code"
+
     def hit(rule: str, a: cst.Leaf | None, b: cst.Leaf | None, off: int) -> None:
         hits.append({
+            "lca": lca_type(a, b),
             "ckind": ("" if b is None or b.type != "comment" else
                       ("line" if b.text.startswith(b"#") else "block")),
             "rule": rule,
@@ -51,7 +67,8 @@ def scan(rd: cst.Reading) -> list[dict]:
     for i in range(len(leaves) - 1):
         a, b = leaves[i], leaves[i + 1]
         # keep the stack of openers for closer alignment (code tokens only)
-        if not a.in_string and a.type in OPENERS and a.parent != "interpolation":
+        if not a.in_string and not a.str_interp and a.type in OPENERS \
+                and a.parent != "interpolation":
             opener_stack.append(a)
         gap = data[a.end:b.start]
         in_str = (a.in_string and b.in_string)
@@ -86,8 +103,20 @@ def scan(rd: cst.Reading) -> list[dict]:
             op = None
             if opener_stack and OPENERS.get(opener_stack[-1].type) == b.type:
                 op = opener_stack.pop()
-            if op is not None and b"\n" in gap and b.type != "comment":
-                if line_indent(b.row0) != line_indent(op.row0) and b.col0 == line_indent(b.row0):
+            if op is not None and b"\n" in gap and b.col0 == line_indent(b.row0):
+                # judged only where the structure is unambiguous: the opener starts its own
+                # line, or the opener's line starts with the binding that contains it
+                op_line_indent = line_indent(op.row0)
+                judged = op.col0 == op_line_indent
+                if not judged:
+                    n = op.node
+                    while n is not None:
+                        if n.type in ("binding", "inherit", "inherit_from") and \
+                                n.start_point[0] == op.row0 and n.start_point[1] == op_line_indent:
+                            judged = True
+                            break
+                        n = n.parent
+                if judged and b.col0 != op_line_indent:
                     hit("closer-indent", a, b, b.start)
         if b.type == "comment" and b"\n" in gap and b.parent in SEQ_PARENTS:
             # own-line comment between items of a sequence: indentation of the items
